@@ -219,7 +219,7 @@ class Models:
         if isinstance(expr, ast.Dict) and not expr.keys:
             g = GlobalMapV(name)
             ann = module.global_ann.get(name, "")
-            g.unit_values = "Unit]" in ann.replace(" ", "") or "Unit'" in ann
+            g.unit_values = self._mapping_value_is_unit(ann)
             g.record_types = self.record_types(module, ann)
             return g
         if isinstance(expr, ast.Call):
@@ -324,8 +324,8 @@ class Models:
         sgn = self.sign_of(diff)
         if sgn is not None:
             return {"==": False, "!=": True, "<": sgn < 0, "<=": sgn < 0, ">": sgn > 0, ">=": sgn > 0}[op]
-        key = (a - b).key()
-        nkey = (b - a).key()
+        key = st.canon_diff(a - b).key()
+        nkey = st.canon_diff(b - a).key()
         flip = {"==": "==", "!=": "!=", "<": ">", "<=": ">=", ">": "<", ">=": "<="}
         holds = lambda o, s: {"==": s == 0, "!=": s != 0, "<": s < 0, "<=": s <= 0, ">": s > 0, ">=": s >= 0}[o]
         allowed = {-1, 0, 1}
@@ -740,6 +740,19 @@ class Models:
             return OpaqueV("tuple." + attr)
         I.unsupported(node, f"attribute {attr} of {obj!r}")
 
+    @staticmethod
+    def _mapping_value_is_unit(ann: str) -> bool:
+        """Mapping[K, Unit] (the value type itself is a unit class), as opposed to tuples containing units."""
+        try:
+            e = ast.parse(ann, mode="eval").body
+        except SyntaxError:
+            return False
+        if isinstance(e, ast.Subscript) and isinstance(e.slice, ast.Tuple) and len(e.slice.elts) == 2:
+            v = e.slice.elts[1]
+            name = v.id if isinstance(v, ast.Name) else (v.value if isinstance(v, ast.Constant) else None)
+            return name in ("Unit", "Currency")
+        return False
+
     def record_types(self, module, ann: str):
         """Element types of a mapping's tuple-valued records, from the repo's own type aliases."""
         try:
@@ -883,10 +896,12 @@ class Models:
             if attr in ("split", "rsplit"):
                 lv = ListV(None, tag="split", opaque_elem=None)
                 lv.split_of = (v, args)
+                # str.split(sep) always yields at least one part; split() / split(None) yields none for blank text
+                lo = 0 if (not args or isinstance(args[0], NoneV)) else 1
                 if len(args) >= 2 and isinstance(args[1], Num) and args[1].rf.is_const():
-                    lv.len_choices = list(range(1, int(args[1].rf.const_value()) + 2))
+                    lv.len_choices = list(range(lo, int(args[1].rf.const_value()) + 2))
                 else:
-                    lv.len_choices = [1, 2, 3, 4]
+                    lv.len_choices = list(range(lo, 5))
                 return lv
             if attr == "partition":
                 return TupleV([StrV(None, "part0"), StrV(None, "sep"), StrV(None, "part2")])
